@@ -698,3 +698,18 @@ T("C18", "twin-compile-stamp-int-call-not-decided", PE, STAMP, "        compile_
 M("C18", "compile-stamp-taken-after-optional-header", PE, "", "", "C18.R2", edits=[(PE, STAMP, ""), (PE, EXPORT_DD, STAMP + EXPORT_DD)])
 M("C18", "compile-stamp-taken-after-section-table", PE, "", "", "C18.R2", edits=[(PE, STAMP, ""), (PE, EXPORT, EXPORT.replace("        ds = None\n", STAMP + "        ds = None\n", 1))])
 M("C18", "truncation-handler-reports-nothing", PE, EOF_PASS, "        return (None, None)\n    return (compile_stamp, export_stamp)\n", "C18.R2")
+
+# ----------------------------------------------------------------------------------------------- R1: signedness of the members the package reads
+# (wave 7) a member of the right width but of a signed C type reports every value with the top bit set as a negative number;
+# equivalent unsigned spellings (ntimage.h / winnt.h / stdint style names) are the same definition
+FILE_STAMP = "    DWORD TimeDateStamp;\n    DWORD PointerToSymbolTable;\n"
+SEC_SIZES = "    ULONG   SizeOfRawData;\n    ULONG   PointerToRawData;\n"
+EXP_HEAD = "    ULONG   Characteristics;\n    ULONG   TimeDateStamp;\n    USHORT  MajorVersion;\n    USHORT  MinorVersion;\n"
+DATA_DIR = "    ULONG   VirtualAddress;\n    ULONG   Size;\n"
+T("C18", "twin-export-directory-winnt-type-names", PE, EXP_HEAD, "    DWORD   Characteristics;\n    DWORD   TimeDateStamp;\n    WORD    MajorVersion;\n    WORD    MinorVersion;\n")
+T("C18", "twin-stdint-type-names", PE, "", "", edits=[(PE, FILE_STAMP, "    uint32 TimeDateStamp;\n    uint32 PointerToSymbolTable;\n"), (PE, SEC_SIZES, "    uint32  SizeOfRawData;\n    uint32  PointerToRawData;\n"), (PE, DATA_DIR, "    UINT    VirtualAddress;\n    UINT    Size;\n")])
+T("C18", "twin-unread-member-signed", PE, "    DWORD PointerToSymbolTable;\n", "    LONG  PointerToSymbolTable;\n")
+M("C18", "compile-stamp-member-signed", PE, FILE_STAMP, "    LONG  TimeDateStamp;\n    DWORD PointerToSymbolTable;\n", "C18.R1")
+M("C18", "section-raw-size-member-signed", PE, SEC_SIZES, "    int32   SizeOfRawData;\n    ULONG   PointerToRawData;\n", "C18.R1")
+M("C18", "section-count-member-signed", PE, "    WORD  NumberOfSections;\n", "    SHORT NumberOfSections;\n", "C18.R1")
+M("C18", "export-rva-member-signed", PE, DATA_DIR, "    INT     VirtualAddress;\n    ULONG   Size;\n", "C18.R1")
